@@ -21,9 +21,12 @@ KINDS = {
     "stream8": ("sync", [("payload", 8), ("first", 1), ("last", 1)]),
     "rawss": ("ss", [("payload", 32), ("ctrl", 4), ("first", 1), ("last", 1)]),
     "header": ("ss", [("header", 128)]),
+    # multi-lane valid (SuperSpeedStreamInterface): the word's first element is its non-zero valid mask
+    "ss4": ("sync", [("payload", 32), ("first", 1), ("last", 1)]),
 }
+MULTILANE = {"ss4"}
 CONFIGS = [("stream8", 1), ("stream8", 2), ("stream8", 3), ("stream8", 4), ("rawss", 4), ("rawss", 2),
-           ("header", 1), ("header", 2), ("header", 3)]
+           ("header", 1), ("header", 2), ("header", 3), ("ss4", 2), ("ss4", 3)]
 
 
 def build(kind, n):
@@ -39,6 +42,13 @@ def build(kind, n):
         from luna.gateware.usb.stream import SuperSpeedStreamArbiter, USBRawSuperSpeedStream
         dut = SuperSpeedStreamArbiter()
         prods = [USBRawSuperSpeedStream() for _ in range(n)]
+        for p in prods:
+            dut.add_stream(p)
+    elif kind == "ss4":
+        from luna.gateware.usb.stream import SuperSpeedStreamInterface
+        from luna.gateware.stream.arbiter import StreamArbiter
+        dut = StreamArbiter(stream_type=SuperSpeedStreamInterface)
+        prods = [SuperSpeedStreamInterface() for _ in range(n)]
         for p in prods:
             dut.add_stream(p)
     else:
@@ -60,7 +70,8 @@ def build(kind, n):
 
 
 class _Driver:
-    def __init__(self, n, fields, inputs, ready, tail=3):
+    def __init__(self, n, fields, inputs, ready, tail=3, multilane=False):
+        self.multilane = multilane
         self.n = n
         self.fields = fields
         self.inputs = inputs
@@ -96,16 +107,18 @@ class _Driver:
                 else:
                     self.valid[k] = 1
             if self.valid[k]:
-                word = self.inputs[k][self.bi[k]]["words"][self.wi[k]]
+                word = list(self.inputs[k][self.bi[k]]["words"][self.wi[k]])
+                mask = word.pop(0) if self.multilane else 1
                 for (f, _), val in zip(self.fields, word):
                     upd[f"{f}{k}"] = val
-                w.append(list(word))
+                w.append(word)
                 b.append(self.bi[k])
             else:
+                mask = 0
                 w.append(None)
                 b.append(None)
-            upd[f"v{k}"] = self.valid[k]
-            v.append(self.valid[k])
+            upd[f"v{k}"] = mask
+            v.append(mask)
         r = self.ready[t % len(self.ready)]
         upd["ready"] = r
         if not any(v) and all(self.bi[k] >= len(self.inputs[k]) for k in range(n)):
@@ -127,6 +140,8 @@ class ArbiterSub(Sub):
             "non-trivial = a higher-priority input raised valid while a lower-priority burst was in progress AND that "
             "burst was stalled by the consumer at least once")
 
+    cfg_ids = list(range(9))
+
     def setup(self):
         self.h = {}
 
@@ -140,6 +155,9 @@ class ArbiterSub(Sub):
             kind, n = CONFIGS[ci]
             fields = KINDS[kind][1]
             word = st.tuples(*[bits(wd) for _, wd in fields]).map(list)
+            if kind in MULTILANE:
+                mask = weighted([(0b1111, 5), (0b0001, 1), (0b0011, 1), (0b0111, 1), (0b1000, 1)])
+                word = st.tuples(mask, word).map(lambda mw: [mw[0]] + mw[1])
             burst = st.fixed_dictionaries(dict(gap=weighted([(0, 2), (1, 3), (2, 2), (4, 1), (9, 1)]),
                                                words=st.lists(word, min_size=1, max_size=6)))
             ready = st.one_of(st.just([1]),
@@ -149,13 +167,13 @@ class ArbiterSub(Sub):
                 cfg=st.just(ci),
                 inputs=st.lists(st.lists(burst, min_size=0, max_size=4), min_size=n, max_size=n),
                 ready=ready))
-        return st.integers(0, len(CONFIGS) - 1).flatmap(for_cfg)
+        return st.sampled_from(self.cfg_ids).flatmap(for_cfg)
 
     def run(self, case):
         ci = case["cfg"]
         kind, n = CONFIGS[ci]
         fields = KINDS[kind][1]
-        drv = _Driver(n, fields, case["inputs"], case["ready"])
+        drv = _Driver(n, fields, case["inputs"], case["ready"], multilane=kind in MULTILANE)
         total_words = sum(len(b["words"]) for inp in case["inputs"] for b in inp)
         bursts = [b for inp in case["inputs"] for b in inp]
         bound = total_words * (len(case["ready"]) + 1) + sum(b["gap"] + 4 for b in bursts) + 50
@@ -179,7 +197,9 @@ class ArbiterSub(Sub):
             rk = [getattr(o, f"r{k}") for k in range(n)]
             # ---- idle
             if o.idle != int(not any(v)):
-                return fail(f"{what} cycle {t}: idle={o.idle} with input valids {v}", signature="idle-wrong")
+                partial = kind in MULTILANE and any(x not in (0, 15) for x in v)
+                return fail(f"{what} cycle {t}: idle={o.idle} with input valids {v}",
+                            signature="idle-wrong" + ("-partial-valid-mask" if partial else ""))
             # ---- which selections explain this cycle?
             consistent = set()
             for s in range(n):
@@ -206,14 +226,21 @@ class ArbiterSub(Sub):
                 for s in cand:
                     if pv[s]:
                         allowed.add(s)
+                        if not v[s]:
+                            # s's burst ended (its last word was taken in t-1): an eager arbiter may already have
+                            # moved on to the best input that was waiting, LUNA's takes one bubble cycle
+                            others = [i for i, x in enumerate(pv) if x and i != s]
+                            allowed |= {others[0]} if others else set(range(n))
                     elif any(pv):
-                        allowed.add(pv.index(1))
+                        allowed.add(next(i for i, x in enumerate(pv) if x))
                     else:
                         allowed |= set(range(n))
                 new = consistent & allowed
                 if not new:
-                    held = [s for s in cand if pv[s]]
+                    held = [s for s in cand if pv[s] and v[s]]
                     sig = "switched-while-valid-held" if held else "wrong-input-selected"
+                    if held and kind in MULTILANE and all(pv[s] != 15 for s in held):
+                        sig = "switched-while-partial-valid-mask-held"
                     return fail(f"{what} cycle {t}: selection {sorted(consistent)} not reachable from {sorted(cand)} "
                                 f"(previous cycle valids {pv}): " +
                                 ("the selected input still held valid" if held else
@@ -239,7 +266,7 @@ class ArbiterSub(Sub):
                                     signature="burst-interleaved")
                 accepted_in_burst[j] += 1
             # ---- classification
-            if sum(v) >= 2:
+            if sum(1 for x in v if x) >= 2:
                 labels.add("contention")
             for k in range(n):
                 if v[k] and accepted_in_burst[k] > 0 and not r and k in cand:
@@ -254,4 +281,15 @@ class ArbiterSub(Sub):
         return Result(ok=True, nontrivial=nt, labels=tuple(sorted(labels)))
 
 
-SUBS = [ArbiterSub()]
+class MultiLaneArbiterSub(ArbiterSub):
+    name = "arbiter-multilane-valid"
+    budget = {"quick": 3000, "thorough": 40000}
+    cfg_ids = [9, 10]
+    rule = ("StreamArbiter(stream_type=SuperSpeedStreamInterface) with 2..3 sinks: the same generator and oracle, but every "
+            "word carries a non-zero 4-lane valid mask (mostly 0b1111, partial masks as on the final word of a USB3 "
+            "payload); an input is 'offering data' while its mask is non-zero and the forwarded mask must be the "
+            "selected input's; kept separate because no in-repo arbiter carries multi-lane valid; non-trivial as for "
+            "the arbiter sub")
+
+
+SUBS = [ArbiterSub(), MultiLaneArbiterSub()]
